@@ -84,7 +84,7 @@ if valid:
         meta = json.load(open("%s/m%s.json" % (D, K)))
     except Exception:
         pass
-    json.dump({"breaks_property": ID, "checked_with": CID, "from_seeder": meta,
+    json.dump({"breaks_property": CID, "checked_with": CID, "from_seeder": meta,
                "needs": meta.get("needs"), "summary": meta.get("summary"),
                "confirmation": {k: v for k, v in res.items() if not k.endswith("_out")},
                "ran": ["git -C <wt> checkout --detach %s" % head, "demo on clean tree: pass", "git apply patch.diff",
